@@ -62,6 +62,13 @@ def run(tier, seed, t0):
         jobs.append(cfg_job("asan", "nayuki-portable", 1025, 1, 3, 7, seed, "b", count=3, entries=5, timeout=3600))
         for be in vbuild.BACKENDS:
             jobs.append(cfg_job("asan", be, 6, 2 if be == "fftw" else 1, 3, 7, seed, "d", entries=15, timeout=3600))
+    # key-switching decompositions of the key under test: the default (10,2) and others, by job
+    KS = [(10, 2), (5, 3), (4, 4), (3, 5), (2, 8), (15, 1), (8, 2), (6, 3)]
+    for i, j in enumerate(jobs):
+        t, bb = KS[i % len(KS)]
+        if (t, bb) != (10, 2):
+            j.args = j.args + ["--t", str(t), "--basebit", str(bb)]
+            j.name += "-t%d-bb%d" % (t, bb)
     # process history: every other job first generates and uses a key set of another layout (all dimensions different)
     for i, j in enumerate(jobs):
         if j.flavor in ("optim", "debug") and i % 2 == 0:
